@@ -2,7 +2,7 @@ SPEC = dict(
     id="C07",
     bin="c07",
     coq_dir="C07",
-    coq_targets=["C05/Proofs.vo", "C05/Sort.vo", "C05/Examples.vo", "C07/Proofs.vo", "C07/Equiv.vo", "C07/Examples.vo"],
+    coq_targets=["C05/Proofs.vo", "C05/Sort.vo", "C05/Examples.vo", "C07/Proofs.vo", "C07/Equiv.vo", "C07/PromoteModel.vo", "C07/Promote.vo", "C07/Examples.vo"],
     allowed_axioms=[],
     level_text=("Unbounded Coq theorems about the C05 model of write-fonts' object store and packer. Hash iteration: the ordered object map built by "
                 "Graph::from_obj_store and the removed_edges check of both sorts are independent of HashMap iteration order (any permutation). "
@@ -12,9 +12,15 @@ SPEC = dict(
                 "hence any two strictly increasing id streams give the same bytes/failure (counter_independent), and for every counter start and every "
                 "interleaving of other threads' fetch_add draws the result equals the one with ids 0,1,2,... (concurrent_history_independent). "
                 "These theorems cover the modelled basic path (Kahn / shortest distance); the space-assignment / duplication path is modelled and "
-                "evaluated under three id streams per case but its equivariance is not proved. On the implementation the property is checked by a "
+                "evaluated under three id streams per case but its equivariance is not proved. Extension promotion (round 3, coq/C07/PromoteModel.v): "
+                "get_promotable_subtables + select_promotions_hb are modelled (ascending-id enumeration of the BTreeMap, stable sort_by_key, three-layer cut-off); "
+                "proved: the promoted set/order is independent of the order in which the set of lookups is listed (promotion_candidate_order_independent), the ranked list "
+                "is sorted by (score desc, id asc) i.e. ties are broken by creation order (promotion_ties_broken_by_id), the choice commutes with every strictly monotone "
+                "renaming (promotion_equivariant); the statement without the canonical enumeration is refuted (promotion_unordered_candidates_refuted). Tied by "
+                "correspondence: generated overflowing GSUB/GPOS with groups of equal-score lookups, the extension lookups read back from the real bytes must be the "
+                "ones the model predicts. On the implementation the property is checked by a "
                 "schedule experiment: generated object DAGs (incl. duplication path), real GPOS/GSUB/GDEF/name/cmap/HVAR/fvar tables, synthetic GPOS "
-                "forcing splitting and promotion, a GSUB whose big lookups pairwise share a coverage (several 32-bit spaces overflowing in one isolation round), every layout builder that collects into hash containers (SinglePos/PairPos/MarkToBase/MarkToMark/MarkToLig/Cursive/ClassDef/Coverage builders, each also repeated 32x in-process), gvar and ItemVariationStore builders, FontBuilder::build and klippa::subset_font compiled repeatedly "
+                "forcing splitting and promotion, a GSUB whose big lookups pairwise share a coverage (several 32-bit spaces overflowing in one isolation round), every layout builder that collects into hash containers (SinglePos/PairPos/MarkToBase/MarkToMark/MarkToLig/Cursive/ClassDef/Coverage builders, each also repeated 32x in-process), overflowing GSUB/GPOS tables whose lookups have EQUAL promotion scores with the cut-off inside the tied group, variable GPOS built through the public builders (SinglePos/PairPos glyph+class pairs/Cursive/MarkToBase/MarkToMark/MarkToLig, every value with deltas over its own regions, one shared VariationStoreBuilder; IVS + remapped GPOS bytes compared), gvar and ItemVariationStore builders, FontBuilder::build and klippa::subset_font compiled repeatedly "
                 "after unrelated compilations, on 1..16 threads with randomised starts, and in fresh child processes; all hashes must agree — partial "
                 "(tested only) for gvar/IVS/klippa and the advanced path."),
     level_note=("Trusted: Coq kernel; coq/C05/Model.v (its agreement with write-fonts is checked on every run, not proved); the harness; the assumption "
@@ -22,9 +28,12 @@ SPEC = dict(
                 "shared mutable state of the packer is the atomic id counter."),
     technique="Coq proof (Permutation, injective renaming) over the C05 Gallina model + vm_compute correspondence under several id streams + schedule/thread/process determinism experiment on the implementation",
     modelled=["write-fonts/src/graph.rs: ObjectStore::add (id draw), Graph::from_obj_store (HashMap -> BTreeMap), removed_edges checks of sort_kahn / sort_shortest_distance, Graph::serialize",
-              "write-fonts/src/write.rs: TableWriter::add_table / write_offset (post-order id assignment, content dedup)"],
+              "write-fonts/src/write.rs: TableWriter::add_table / write_offset (post-order id assignment, content dedup)",
+              "write-fonts/src/graph.rs: get_promotable_subtables (candidate enumeration), select_promotions_hb (stable ranking + layer cut-off) — coq/C07/PromoteModel.v; sizes and the f64 sort key are case data"],
     not_covered=["equivariance / hash-order independence of the space-assignment path (id_map HashMap iteration in isolate_subgraph_hb, fresh ids of duplicate_subgraph): modelled, evaluated under three id streams per case, not proved",
                  "orphan set in remove_orphans, parent set in get_promotable_subtables (GPOS/GSUB only): not modelled; child-process experiment only",
+                 "find_subgraph_size / find_children_size and the f64 arithmetic of LookupSize::sort_key are not modelled (sizes and key are inputs of a promotion case; the key is checked against the exact quotient within 1)",
+                 "gpos builders' visiting order of values vs. the first-seen region numbering of VariationStoreBuilder: schedule experiment only (varbuilder jobs)",
                  "gvar shared tuples/points, VariationStoreBuilder region ordering, klippa FnvHashMaps: schedule experiment only"],
     assumptions=["an atomic fetch_add hands each thread a strictly increasing sequence of ids (the only fact about the shared counter the argument needs)"],
 )
